@@ -372,3 +372,25 @@ package core
 //@   ensures[C15] @others forall k uint64 :: k != tx.data.AccountNonce ==> l.txs.items[k] == old(l.txs.items[k])
 //@   ensures[C15] @caps result0 ==> txcost(tx) <= big(l.costcap) && tx.data.GasLimit <= l.gascap
 //@   nopanic[C15]
+
+// ---- removing a pending transaction rolls the virtual nonce back (C15) -------------------------------
+// Ghost record of the most recent txList.Remove call (list and verdict). When removeTx takes a
+// transaction out of its sender's pending list, the pool's virtual nonce of that sender ends at or
+// below the removed nonce, so that no later transaction can be promoted across the gap.
+//@ ghost rm_list Int
+//@ ghost rm_found Bool
+//@ func txList.Remove
+//@   axiom rm_list == l && rm_found == result0
+//@   assigns rm_list, rm_found, inferred
+
+// (enqueueTx is not looked into from removeTx: its effect is its inferred frame)
+//@ func TxPool.enqueueTx
+//@   opaque
+
+//@ func TxPool.removeTx
+//@   requires pool != nil && pool.pendingState != nil
+//@   let tx = old(pool.all[hash])
+//@   let from = txsender(pool.signer, old(pool.all[hash]))
+//@   requires has(pool.all, hash) && pool.all[hash] != nil && txsenderok(pool.signer, pool.all[hash])
+//@   requires pool.pending[txsender(pool.signer, pool.all[hash])] != nil && pool.pending[txsender(pool.signer, pool.all[hash])] != pool.queue[txsender(pool.signer, pool.all[hash])]
+//@   ensures[C15] @rollback rm_found && rm_list == old(pool.pending[txsender(pool.signer, pool.all[hash])]) ==> mnonce[pool.pendingState][from] <= old(pool.all[hash].data.AccountNonce)
